@@ -2,12 +2,14 @@
 
 source                                   -> Lean (lean/CssVerif/Gen/C09RuleKinds.lean)
 cssrule.py  CSSRule.<NAME> = <int>       -> Kind.code
-cssstylesheet.py insertRule: every `<x>.type in (<r>.A, <r>.B, ...)` tuple, in source order (11 of them)
+cssstylesheet.py insertRule: every `<x>.type in (<r>.A, <r>.B, ...)` tuple, in source order (12 of them)
                                          -> commentKinds, importFirstSkip, importBefore, nsStartAfter, nsFirstBefore,
-                                            nsAfter, nsBefore, varsFirstBefore, varsAfter, varsBefore, otherAfter
+                                            nsAfter, nsBefore, varsStartAfter, varsFirstBefore, varsAfter, varsBefore,
+                                            otherAfter
 cssstylesheet.py _setCssText: per callback `if expected > N` and the final `return M`
                                          -> lvlMax / lvlAfter
-cssmediarule.py / csspagerule.py insertRule: the isinstance(...) chain   -> mediaRejects / pageRejects
+cssmediarule.py / csspagerule.py insertRule: the isinstance(...) chain, or `not isinstance(rule, X)`
+                                         -> mediaRejects / pageRejects (functions Kind -> Bool)
 cssmediarule.py _setCssText.atrule: the `atval in (...)` tuple and the factories dict -> mediaTextRejects / mediaTextFactories
 
 The control structure around these tables is hand-modelled (Model/SheetEdit.lean) and checked by correspondence.
@@ -32,7 +34,7 @@ KIND_OF_ATVAL = {
     '@page': 'page', '@media': 'media',
 }
 INSERT_TUPLES = ['commentKinds', 'importFirstSkip', 'importBefore', 'nsStartAfter', 'nsFirstBefore', 'nsAfter',
-                 'nsBefore', 'varsFirstBefore', 'varsAfter', 'varsBefore', 'otherAfter']
+                 'nsBefore', 'varsStartAfter', 'varsFirstBefore', 'varsAfter', 'varsBefore', 'otherAfter']
 CALLBACKS = {'charsetrule': 'charset', 'importrule': 'imp', 'namespacerule': 'ns', 'variablesrule': 'vars',
              'fontfacerule': 'fontface', 'mediarule': 'media', 'pagerule': 'page', 'ruleset': 'style'}
 
@@ -134,20 +136,35 @@ def levels(src):
 
 
 def isinstance_chain(src, cls):
+    """the hierarchy test of <cls>.insertRule: `isinstance(rule, A) or isinstance(rule, B) ...` (refuse these) or
+    `not isinstance(rule, A)` (refuse everything else). Returns (negated, kinds)."""
     f = _func(ast.parse(src), cls, 'insertRule')
-    ks = []
+    test = None
     for n in ast.walk(f):
-        if (isinstance(n, ast.Call) and isinstance(n.func, ast.Name) and n.func.id == 'isinstance'
-                and len(n.args) == 2 and isinstance(n.args[0], ast.Name) and n.args[0].id == 'rule'):
-            t = n.args[1]
-            name = t.attr if isinstance(t, ast.Attribute) else t.id if isinstance(t, ast.Name) else None
-            if name not in KIND_OF_CLASS:
-                raise Unsupported('%s.insertRule: isinstance against %r' % (cls, ast.dump(t)))
-            ks.append((n.lineno, n.col_offset, KIND_OF_CLASS[name]))
-    ks.sort()
-    if not ks:
-        raise Unsupported('%s.insertRule: no isinstance chain' % cls)
-    return [k for _, _, k in ks]
+        if isinstance(n, ast.If):
+            calls = [m for m in ast.walk(n.test) if isinstance(m, ast.Call) and isinstance(m.func, ast.Name)
+                     and m.func.id == 'isinstance']
+            if calls and all(len(m.args) == 2 and isinstance(m.args[0], ast.Name) and m.args[0].id == 'rule'
+                             for m in calls):
+                if test is not None:
+                    raise Unsupported('%s.insertRule: two isinstance tests' % cls)
+                test = n.test
+    if test is None:
+        raise Unsupported('%s.insertRule: no isinstance test' % cls)
+
+    def kind_of(call):
+        t = call.args[1]
+        name = t.attr if isinstance(t, ast.Attribute) else t.id if isinstance(t, ast.Name) else None
+        if name not in KIND_OF_CLASS:
+            raise Unsupported('%s.insertRule: isinstance against %r' % (cls, ast.dump(t)))
+        return KIND_OF_CLASS[name]
+    if isinstance(test, ast.UnaryOp) and isinstance(test.op, ast.Not) and isinstance(test.operand, ast.Call):
+        return True, [kind_of(test.operand)]
+    if isinstance(test, ast.Call):
+        return False, [kind_of(test)]
+    if isinstance(test, ast.BoolOp) and isinstance(test.op, ast.Or) and all(isinstance(v, ast.Call) for v in test.values):
+        return False, [kind_of(v) for v in test.values]
+    raise Unsupported('%s.insertRule: hierarchy test of an unknown shape' % cls)
 
 
 def media_text(src):
@@ -217,10 +234,10 @@ def generate(repo):
         out.append('  | .%s => some %d' % (k, lvl_after[k]))
     out.append('  | _ => none')
     out.append('')
-    out.append('/-- cssmediarule.py `insertRule`: isinstance chain of rejected classes -/')
-    out.append('def mediaRejects : List Kind := %s' % lean_list(media_rej))
-    out.append('/-- csspagerule.py `insertRule`: isinstance chain of rejected classes -/')
-    out.append('def pageRejects : List Kind := %s' % lean_list(page_rej))
+    out.append('/-- cssmediarule.py `insertRule`: the kinds refused by the isinstance test -/')
+    out.append('def mediaRejects (k : Kind) : Bool := %s%s.contains k' % ('!' if media_rej[0] else '', lean_list(media_rej[1])))
+    out.append('/-- csspagerule.py `insertRule`: the kinds refused by the isinstance test -/')
+    out.append('def pageRejects (k : Kind) : Bool := %s%s.contains k' % ('!' if page_rej[0] else '', lean_list(page_rej[1])))
     out.append('/-- cssmediarule.py `_setCssText.atrule`: at-keywords refused inside @media text -/')
     out.append('def mediaTextRejects : List Kind := %s' % lean_list(mt_rej))
     out.append('/-- … and the at-keywords with a factory (parsed as that rule class) -/')
